@@ -9,7 +9,8 @@ MANIFEST = dict(
          '(C02_no_free_while_live_partial, C02_no_free_while_reader_holds_partial, C02_oracle_accepts_partial; invariants: typing, ownership tokens, reference counts, held views). '
          'The WriteDirect split (known finding D4) is excluded by an explicit per-call hypothesis (CovV) and proved as witnesses on two concrete histories (C02_D4_witness, C02_D4_witness_view). '
          'Tied to the code by a run with an allocator that never reuses and poisons freed blocks: every live result is re-compared with its snapshot after every later operation, and the ledger model is compared op by op with the implementation '
-         '(allocator events, per-node reference count / block / origin, and the problems reported at the known finding).',
+         '(allocator events, per-node reference count / block / origin, and the problems reported at the known finding). '
+         'The same held-result re-comparison runs on real connections (go/cmd/streamh) and on the NewReader adapter over scripted io.Readers (go/cmd/adapter, poisoning allocator, results held across refills of the adapter buffer).',
     note='partial: CovV excludes WriteDirect(remain>0) (D4), a MallocAck that would reset a reference count != 1, chain cuts behind the write node over exposed structs, id reuse (none of these occurs inside the documented contract except D4; the check measures how many sampled calls are inside CovV). '
          'NOT proved: "no netpoll write overlaps a live view" (C02_no_overwrite_while_live) - covered only by sampling: the implementation-side snapshot oracle and the model-side write-under-live-view check of npdriver own. '
          'Cross-goroutine release of Slice readers is reduced to interleavings of whole operations (A-atomic-refer). Correspondence is sampling.',
